@@ -285,9 +285,14 @@ Fixpoint data_close (m o : list Q) (mask : list bool) : bool :=
 Definition uspec_eqb (u v : uspec) : bool :=
   list_eqb Z.eqb (u_dims u) (u_dims v) && Qeq_bool (u_fac u) (u_fac v) && Qeq_bool (u_off u) (u_off v).
 
+(** a mask without a set bit and no mask at all denote the same set of masked cells (numpy turns
+    0-d masked arrays with nothing masked into plain scalars during arithmetic) *)
+Definition mask_norm (m : option (list bool)) : option (list bool) :=
+  match m with Some b => if existsb (fun x => x) b then Some b else None | None => None end.
+
 Definition arr_close (m o : arr) : bool :=
   list_eqb Nat.eqb (a_shape m) (a_shape o)
-  && option_eqb (list_eqb Bool.eqb) (a_mask m) (a_mask o)
+  && option_eqb (list_eqb Bool.eqb) (mask_norm (a_mask m)) (mask_norm (a_mask o))
   && data_close (a_data m) (a_data o) (match a_mask m with Some b => b | None => [] end).
 
 Definition ecls_eqb (a b : ecls) : bool :=
